@@ -193,3 +193,76 @@ func mspecsC02(tier string) []*mc.MSpec {
 		},
 	}}
 }
+
+// counter returns the integer kept under key in w.Data.
+func counter(w *mc.World, key string) int {
+	n := 0
+	if s, ok := w.Data[key].(string); ok {
+		fmt.Sscan(s, &n)
+	}
+	return n
+}
+
+func bump(w *mc.World, key string) { w.Data[key] = fmt.Sprint(counter(w, key) + 1) }
+
+// mspecsAccess: one connection with a token on a model x that is also
+// referenced by m. The client subscribes / unsubscribes / gets / calls x and
+// subscribes m; the service changes the token, sends reaccess events and an
+// access reset for x and emits the numbered stream on x; every access request
+// is answered with a grant, a denial or a timeout, every answer being an
+// action of its own. Judged by the access oracles (C04 read gating, C05 call
+// gating and token currency, C06 re-check and no event before the verdict)
+// on every transition and in the drain probe of every state.
+func mspecsAccess(tier string) []*mc.MSpec {
+	sc := &mc.Scenario{
+		Name: "M/access", NoEvict: true, Init: basicInit,
+		Conns:    []mc.ConnSpec{{}},
+		Monitors: allMons(seqMon),
+		Menu: func(w *mc.World, r *mc.Req) []mc.Outcome {
+			if subjectIs(r, "access.test.x") {
+				return []mc.Outcome{w.OK(r), mc.Raw("deny", `{"result":{"get":false,"call":"set"}}`), mc.Timeout()}
+			}
+			return nil
+		},
+	}
+	return []*mc.MSpec{{
+		Name: "access", Scenario: sc,
+		MaxDepth: map[string]int{"quick": 8, "thorough": 11},
+		Alphabet: func(w *mc.World) []mc.MAct {
+			c := w.Conns[0]
+			if v := versionFirst(c, 0); v != nil {
+				return v
+			}
+			var out []mc.MAct
+			if counter(w, "tok") == 0 {
+				// the connection gets its first token before anything else
+				return []mc.MAct{svcAct("token=1", func(w *mc.World) { bump(w, "tok"); w.Svc.TokenEvent(0, `{"u":1}`, "") })}
+			}
+			if pendingOn(c) < 2 {
+				if c.Client.Direct["test.x"] < 1 {
+					out = append(out, sendAct(0, "subscribe.test.x", ""))
+				} else {
+					out = append(out, sendAct(0, "unsubscribe.test.x", ""))
+				}
+				if c.Client.Direct["test.m"] < 1 {
+					out = append(out, sendAct(0, "subscribe.test.m", ""))
+				}
+				out = append(out, sendAct(0, "get.test.x", ""), sendAct(0, "call.test.x.set", `{"n":5}`))
+			}
+			if n := counter(w, "tok"); n < 3 {
+				tok := fmt.Sprintf(`{"u":%d}`, n+1)
+				out = append(out, svcAct("token="+fmt.Sprint(n+1), func(w *mc.World) { bump(w, "tok"); w.Svc.TokenEvent(0, tok, "") }))
+			}
+			if counter(w, "reacc") < 2 {
+				out = append(out, svcAct("x.reaccess", func(w *mc.World) { bump(w, "reacc"); w.Svc.Reaccess("test.x") }))
+			}
+			if counter(w, "reset") < 1 {
+				out = append(out, svcAct("reset-access", func(w *mc.World) { bump(w, "reset"); w.Svc.Reset(nil, []string{"test.x"}) }))
+			}
+			if counter(w, "ev") < 4 {
+				out = append(out, svcAct("x+", func(w *mc.World) { bump(w, "ev"); w.Svc.StreamNext("test.x") }))
+			}
+			return out
+		},
+	}}
+}
